@@ -25,7 +25,8 @@ CFG = dict(
          "-proto -output, an interactive `proto >file`, the web /download handler and -top rows, parsed back; command lines with repeated / failing / "
          "shuffled mentions, -base / -diff_base lists with empty values, odd drop_frames, 8-source completion orders (deterministic) + random; header shapes (deterministic): sources in three / four time units "
          "in every order and by alias, equal units, around failing sources, as bases and across the 128 boundary; default sample type on the first / a "
-         "later / no source, around failures and across the boundary. distinct = sha256 of the input term; non-trivial = >= 2 sources "
+         "later / no source, around failures and across the boundary; timed HTTP sources: 12 (-seconds, -timeout) x URL seconds= combinations with the "
+         "client's deadline observed, servers answering 0.3-1.5 s late under -timeout 1. distinct = sha256 of the input term; non-trivial = >= 2 sources "
          "with at least one failing and one succeeding",
     spec_what="status / merged profile (sample type, contributors in order, weight per key) / per-source error lines differ from what the C16 "
               "statement demands for these source lists and outcomes",
@@ -33,7 +34,9 @@ CFG = dict(
                   "Go sync.WaitGroup happens-before / memory model: goroutine = one atomic slot write, barrier = every index occurs in the order",
                   "completion order is enforced best-effort by gates on the Fetcher (a fetch's return, not its slot write, is sequenced)",
                   "export shims harness/overlay/internal/driver/zz_verif_c16.go (build the profileSource lists like fetchProfiles does)"],
-    assumptions=["header judgement (hdr_C16): merged unit = finest unit among the fetched sources, default sample type = first non-empty among them; "
+    assumptions=["fetch deadline: model fetch_timeout_ms / client_allowance_ms (adjustURL + 5 s grace of fetchURL); allowance read from the request "
+                 "context deadline (rounded to 0.5 s); one real-delay case in the quick tier (1.5 s), the over-the-deadline one only in thorough",
+                 "header judgement (hdr_C16): merged unit = finest unit among the fetched sources, default sample type = first non-empty among them; "
                  "values compared as physical weights (ns); period-type units and multi-column defaults not exercised",
                  "end-to-end: Obj.Open never recognises the first argument as a binary; drop_frames of the cases are inert (non-RE2 or matching nothing); "
                  "comments compared after de-duplication; -symbolize=none; local (non-remote) outcome kinds only",
